@@ -81,6 +81,19 @@ MUTS = {
       del self[index]
     self.set_accessor_writable(True)
     return value"""),
+ 'M19-ref-seal-reaches-the-referenced-value': ('pyglove/core/symbolic/ref.py', """  def sym_eq(self, other: Any) -> bool:""", """  def seal(self, sealed: bool = True) -> 'Ref':
+    if isinstance(self._value, base.Symbolic):
+      self._value.seal(sealed)
+    return super().seal(sealed)
+
+  def sym_eq(self, other: Any) -> bool:"""),
+ 'M20-object-seal-walks-evaluated-fields': ('pyglove/core/symbolic/object.py', """    self._sym_attributes.seal(sealed)
+    super().seal(sealed)""", """    for k in self._sym_attributes.sym_keys():
+      v = self.sym_inferred(k, default=None)
+      if isinstance(v, base.Symbolic):
+        v.seal(sealed)
+    self._sym_attributes.sym_seal(sealed)
+    super().seal(sealed)"""),
  'M13-extended-slice-skips-acc-guard': ('pyglove/core/symbolic/list.py', """    if not base.writtable_via_accessors(self):
       raise base.WritePermissionError(
           self._error_message('Cannot modify List item by __setitem__ while '""", """    if not base.writtable_via_accessors(self) and not (
